@@ -241,6 +241,21 @@ def offset(repo: Repo, chk: Check) -> None:
 PER_OPERAND = ["$o.operands", "$o.patterns", "$o.patterns.data", "schedule", "template", "streamers", "$a.get_template($o)", "$a.get_streamers($o)"]
 
 
+def _operand_loops(fn: ast.AST) -> list[tuple[ast.For, str]]:
+    """loops over the operands of the op with the name of the operand INDEX: `for k in range(len(op.operands))` or
+    `for k, operand in enumerate(op.operands)`"""
+    out: list[tuple[ast.For, str]] = []
+    for n in ast.walk(fn):
+        if not isinstance(n, ast.For):
+            continue
+        if norm.match(T("range(len($o.operands))"), n.iter) is not None and isinstance(n.target, ast.Name):
+            out.append((n, n.target.id))
+        elif norm.match(T("enumerate($o.operands)"), n.iter) is not None and isinstance(n.target, ast.Tuple) and len(n.target.elts) == 2 \
+                and all(isinstance(e, ast.Name) for e in n.target.elts):
+            out.append((n, n.target.elts[0].id))  # type: ignore[union-attr]
+    return out
+
+
 def operand_index(repo: Repo, chk: Check) -> None:
     chk.rule(
         "C02.operand",
@@ -253,11 +268,10 @@ def operand_index(repo: Repo, chk: Check) -> None:
         f = repo.func(path, qual)
         chk.analysed(f.key)
         fl = Flow(f, repo)
-        loops = [n for n in ast.walk(f.node) if isinstance(n, ast.For) and norm.match(T("range(len($o.operands))"), n.iter) is not None and isinstance(n.target, ast.Name)]
+        loops = _operand_loops(f.node)
         if len(loops) != 1:
             raise AnalysisError(f"{f.where}: expected one loop over the operands, found {len(loops)}")
-        loop = loops[0]
-        var = loop.target.id  # type: ignore[union-attr]
+        loop, var = loops[0]
         seen: Counter = Counter()
         for n in ast.walk(loop):
             if not isinstance(n, ast.Subscript) or isinstance(n.slice, ast.Slice):
@@ -326,8 +340,10 @@ def relevance(repo: Repo, chk: Check) -> None:
     if site is None:
         raise AnalysisError(f"{f.where}: access iterator not reached by the walker")
     cone = fl.cone(ast.Name(rel, ast.Load()), site, inline=0)
-    loops = [n for n in ast.walk(f.node) if isinstance(n, ast.For) and norm.match(T("range(len($o.operands))"), n.iter) is not None and isinstance(n.target, ast.Name)]
-    var = loops[0].target.id  # type: ignore[union-attr]
+    oloops = _operand_loops(f.node)
+    if not oloops:
+        raise AnalysisError(f"{f.where}: loop over the operands not found")
+    var = oloops[0][1]
     from_template = any(isinstance(m["k"], ast.Name) and m["k"].id == var for _, m in norm.find(T("$a.get_template($o)[$k]"), cone)) or any(
         isinstance(m["k"], ast.Name) and m["k"].id == var for _, m in norm.find(T("template[$k]"), cone))
     chk.result(from_template, "C02.relevance", f"{CONV}:spatial-from-template", site.where(),
